@@ -99,14 +99,16 @@ def run(chk):
                 else:
                     cwd = b
                 del _opened[:]
-                status, headers, chunks, errs = sl.serve(name, root)
+                # sometimes as a conditional request with a date in the future: revalidation must not answer for outside names
+                ims = 'Fri, 01 Jan 2100 00:00:00 GMT' if rng.random() < 0.25 else None
+                status, headers, chunks, errs = sl.serve(name, root, ims=ims)
                 opened = list(_opened)
                 # segment view for the model (POSIX: only '/' separates; strip('/\\') first)
                 stripped = name.strip('/\\')
                 root_abs = os.path.abspath(root)
                 recs.append({'kind': 'path', 'rootSegs': [s for s in (root if os.path.isabs(root) else os.path.join(cwd, root)).split('/')][1:],
                              'nameSegs': stripped.split('/'), 'files': [base.split('/')[1:] + f for f in file_segs],
-                             'status': status, 'rootNorm': s2l(root_abs), 'opened': [s2l(p) for p in opened], 'name': name, 'root': root})
+                             'status': status, 'ims': ims is not None, 'rootNorm': s2l(root_abs), 'opened': [s2l(p) for p in opened], 'name': name, 'root': root})
                 chk.count(1, ('path', name, rname))
     chk.sample({'name': recs[100]['name'], 'root': recs[100]['root'], 'status': recs[100]['status'], 'opened': [''.join(map(chr, o)) for o in recs[100]['opened']]})
     missing, fails = core.validate_records(chk, 'StaticTrace', recs, 'C16',
